@@ -516,6 +516,33 @@ def rule_reader(ctx):
     cr = [bi for bi, b in enumerate(f.blocks) for s in b["s"] if s["k"] == "assign" and [e.get("n") for e in s["p"].get("pr", []) if isinstance(e, dict)] == ["close_received"] and T.rvalue(s["r"]) == ("const", 0)]
     ok = bool(cr) and all(cfg.must_pass_blocks(w, set(cr)) for w in rets)
     ctx.ob(R, "close_received reset", ok, "close_received := false before the next sub-stream" if ok else "close_received is not reset on reuse", f.loc())
+    # recv_open returns Ok only for an OPEN frame: frames of other kinds (left-overs of the previous sub-stream) are skipped
+    def m_open(a, b):
+        def kind(t):
+            return any(x[0] == "call" and x[1].endswith("Header::frame_kind") for x in subterms(t))
+        def is_open(t):
+            return (t[0] == "cdef" and t[1].endswith("FrameKind::OPEN")) or any(x[0] == "cdef" and x[1].endswith("FrameKind::OPEN") for x in subterms(t))
+        if kind(a) and is_open(b):
+            return 1
+        if kind(b) and is_open(a):
+            return -1
+        return 0
+    Wo = Walker(ctx, f, [Atom("cmp(kind,OPEN)", "cmp", m_open, ["=", "!="])])
+    oks = [bi for bi, b in enumerate(f.blocks) for st in b["s"] if st["k"] == "assign" and st["p"]["l"] in Q.ret_locals(f) and not st["p"].get("pr") and st["r"]["k"] == "agg" and st["r"].get("variant") == "Ok"]
+    if waits and oks:
+        e_recv = Q.success_edges(ctx, f, lambda b: b[0] == "await" and b[1][0] == "call" and b[1][1].endswith("UnboundedReceiver::recv"))
+        starts = [t for _, t in e_recv] or [y for w in waits for _, y in cfg.succ[w]]
+        reach_ne = set()
+        reach_eq = set()
+        for s0 in starts:
+            reach_ne |= Wo.reachable({"cmp(kind,OPEN)": "!="}, s0)
+            reach_eq |= Wo.reachable({"cmp(kind,OPEN)": "="}, s0)
+        decided = not Wo.unrecognised or any(m_open(*p2) for _, sc in Wo.unrecognised for p2 in [(sc, sc)] if False)
+        oko = bool(set(oks) & reach_eq) and not (set(oks) & reach_ne)
+        ctx.ob(R, "recv_open returns on OPEN only", oko, "after a received frame Ok is reachable exactly when its kind is OPEN" if oko else
+               "recv_open can return for a frame that is not OPEN (or never returns for OPEN): the next sub-stream starts in the middle of the previous one's frames", f.loc())
+    else:
+        ctx.ob(R, "recv_open returns on OPEN only", False, "receive or Ok return not found in recv_open", f.loc())
     # OPEN detection
     r = ctx.body(NET + "::mux::transient_stream::ReadStream::read_exact")
     Tr = ctx.T(r)
